@@ -212,26 +212,27 @@ def pyRead (vars : List Linked) (st : PyState) (i : Nat) : Option Int := do
   | .fmt f => pure (pyGet f st.data s)
   | .bit n => pure (if pyGetBit st.data s n then 1 else 0)
 
+/-- the value of the right-hand side as Python sees it -/
+def pyValue (vars : List Linked) (st : PyState) : Src → Option Int
+  | .var i => pyRead vars st i
+  | .dv j => st.dvs[j]?
+  | .const k => some k
+
+/-- `TerminalVar.__set__` → `PacketVar.set` -/
+def pyStore (vars : List Linked) (st : PyState) (d : Nat) (v : Int) : Option PyState := do
+  let l ← vars[d]?
+  let s ← start l.assign l.var
+  match l.var.size with
+  | .fmt f => (pySet f st.data s v).map fun data => { st with data := data }
+  | .bit n => some { st with data := pySetBit st.data s n (v != 0) }
+
 def pyStep (vars : List Linked) (st : PyState) : Op → Option PyState
-  | .get j i => do
-    let v ← pyRead vars st i
-    pure { st with dvs := st.dvs.set j v }
-  | .set d src => do
-    let v ← match src with
-      | .var i => pyRead vars st i
-      | .dv j => st.dvs[j]?
-      | .const k => some k
-    let l ← vars[d]?
-    let s ← start l.assign l.var
-    match l.var.size with
-    | .fmt f => do
-      let data ← pySet f st.data s v
-      pure { st with data := data }
-    | .bit n => pure { st with data := pySetBit st.data s n (v != 0) }
+  | .get j i => (pyRead vars st i).map fun v => { st with dvs := st.dvs.set j v }
+  | .set d src => (pyValue vars st src).bind (pyStore vars st d)
 
 def pyRun (vars : List Linked) (st : PyState) : List Op → Option PyState
   | [] => some st
-  | o :: os => do pyRun vars (← pyStep vars st o) os
+  | o :: os => (pyStep vars st o).bind fun st' => pyRun vars st' os
 
 /-- fast groups keep DeviceVars in the array map, each with its own format -/
 structure ProgState where
@@ -264,27 +265,26 @@ def progCond (vars : List Linked) (st : ProgState) : Src → Option Bool
     pure (progTest f mem 0)
   | .const k => some (k != 0)
 
+/-- `TerminalVar.__set__` → `MemoryDesc.__set__` → `Memory._set` -/
+def progStore (vars : List Linked) (st : ProgState) (d : Nat) (src : Src) : Option ProgState := do
+  let l ← vars[d]?
+  let a ← progAddr l.assign l.var
+  match l.var.size with
+  | .fmt f => (progReg vars st (f.width == 8) src).map fun r => { st with frame := stx st.frame a f.width r }
+  | .bit n =>
+    match src with
+    | .const k => some { st with frame := progSetBitConst st.frame a n (k != 0) }
+    | src => (progCond vars st src).map fun c => { st with frame := progSetBitRt st.frame a n c }
+
 def progStep (vars : List Linked) (st : ProgState) : Op → Option ProgState
   | .get j i => do
     let (f, mem) ← st.dvs[j]?
     let r ← progReg vars st (f.width == 8) (.var i)
     pure { st with dvs := st.dvs.set j (f, stx mem 0 f.width r) }
-  | .set d src => do
-    let l ← vars[d]?
-    let a ← progAddr l.assign l.var
-    match l.var.size with
-    | .fmt f => do
-      let r ← progReg vars st (f.width == 8) src
-      pure { st with frame := stx st.frame a f.width r }
-    | .bit n =>
-      match src with
-      | .const k => pure { st with frame := progSetBitConst st.frame a n (k != 0) }
-      | _ => do
-        let c ← progCond vars st src
-        pure { st with frame := progSetBitRt st.frame a n c }
+  | .set d src => progStore vars st d src
 
 def progRun (vars : List Linked) (st : ProgState) : List Op → Option ProgState
   | [] => some st
-  | o :: os => do progRun vars (← progStep vars st o) os
+  | o :: os => (progStep vars st o).bind fun st' => progRun vars st' os
 
 end Ebv.ProcVar
